@@ -1,13 +1,12 @@
 use std::collections::HashMap;
 use std::io::{self, Read, Write};
 
-use regex::Regex;
-
 use crate::core;
+#[cfg(test)]
 use crate::libs;
 use crate::parsers;
 use crate::shell::{self, Shell};
-use crate::types::{CommandLine, CommandResult, Tokens};
+use crate::types::{CommandLine, CommandResult};
 
 /// Entry point for non-ttys (e.g. Cmd-N on MacVim)
 pub fn run_procs_for_non_tty(sh: &mut Shell) {
@@ -48,38 +47,6 @@ pub fn run_command_line(sh: &mut Shell, line: &str, tty: bool,
         cr_list.push(cr);
     }
     cr_list
-}
-
-fn drain_env_tokens(tokens: &mut Tokens) -> HashMap<String, String> {
-    let mut envs: HashMap<String, String> = HashMap::new();
-    let mut n = 0;
-    let ptn_env_exp = r"^([a-zA-Z_][a-zA-Z0-9_]*)=(.*)$";
-    let re = Regex::new(ptn_env_exp).unwrap();
-    for (sep, text) in tokens.iter() {
-        if !sep.is_empty() || !libs::re::re_contains(text, ptn_env_exp) {
-            break;
-        }
-
-        for cap in re.captures_iter(text) {
-            let name = cap[1].to_string();
-            let value = parsers::parser_line::unquote(&cap[2]);
-            envs.insert(name, value);
-        }
-
-        n += 1;
-    }
-    if n > 0 {
-        tokens.drain(0..n);
-    }
-    envs
-}
-
-fn line_to_tokens(sh: &mut Shell, line: &str) -> (Tokens, HashMap<String, String>) {
-    let linfo = parsers::parser_line::parse_line(line);
-    let mut tokens = linfo.tokens;
-    shell::do_expansion(sh, &mut tokens);
-    let envs = drain_env_tokens(&mut tokens);
-    (tokens, envs)
 }
 
 fn set_shell_vars(sh: &mut Shell, envs: &HashMap<String, String>) {
@@ -124,14 +91,14 @@ fn run_proc(sh: &mut Shell, line: &str, tty: bool,
 }
 
 fn run_with_shell(sh: &mut Shell, line: &str) -> CommandResult {
-    let (tokens, envs) = line_to_tokens(sh, line);
-    if tokens.is_empty() {
-        set_shell_vars(sh, &envs);
-        return CommandResult::new();
-    }
-
     match CommandLine::from_line(line, sh) {
         Ok(c) => {
+            if c.is_empty() {
+                // only envs, e.g. `FOO=1 BAR=2`: define **Shell Variables**
+                set_shell_vars(sh, &c.envs);
+                return CommandResult::new();
+            }
+
             let (term_given, cr) = core::run_pipeline(sh, &c, false, true, false);
             if term_given {
                 unsafe {
